@@ -55,12 +55,16 @@ type zzStream struct {
 	mode   int // 0: 1 byte per read, 1: half, 2: all
 	reads  int
 	failAt int // the read call at which the deadline fires (-1: never; data exhausted = deadline too)
+	// quic-go hands out the last bytes together with the error (FIN riding on the
+	// final frame, or the deadline firing on a partially filled read)
+	errWithData bool
 }
 
 func (s *zzStream) StreamID() quic.StreamID { return 0 }
 func (s *zzStream) Read(p []byte) (int, error) {
 	s.reads++
-	if s.reads-1 == s.failAt || s.pos >= len(s.data) {
+	failing := s.reads-1 == s.failAt
+	if (failing && !s.errWithData) || s.pos >= len(s.data) {
 		return 0, errors.New("deadline exceeded")
 	}
 	if len(p) == 0 {
@@ -78,6 +82,10 @@ func (s *zzStream) Read(p []byte) (int, error) {
 	}
 	copy(p, s.data[s.pos:s.pos+n])
 	s.pos += n
+	if s.errWithData && (failing || s.pos == len(s.data)) {
+		s.failAt = s.reads // every later read fails too
+		return n, errors.New("deadline exceeded / EOF")
+	}
 	return n, nil
 }
 func (s *zzStream) Write(p []byte) (int, error)        { return len(p), nil }
@@ -103,7 +111,7 @@ func ZZ_C17_TCPTransparent() {
 		// TLS record length: keep the record within reach of the stream bound
 		verifAssume(sent[3] == 0 && sent[4] <= 4)
 	}
-	st := &zzStream{data: sent, mode: verifChoice("chunk", 3), failAt: verifChoice("failAt", 5) - 1}
+	st := &zzStream{data: sent, mode: verifChoice("chunk", 3), failAt: verifChoice("failAt", 5) - 1, errWithData: verifBool("errWithData")}
 	h := &Sniffer{RewriteDomain: verifBool("rewriteDomain")}
 	addr := "10.0.0.1:443"
 	out, err := h.TCP(st, &addr)
